@@ -103,7 +103,12 @@ func init() {
 			n := atoi(args[1])
 			ops := args[2:]
 			ds := disjoint.New(n)
+			// the buffer handed to FindBuffered / UnionBuffered only provides initial storage (the code appends beyond it);
+			// half of the histories use a buffer shorter than the longest possible chain
 			buf := make([]int, n+1)
+			if n >= 2 && len(ops)%2 == 1 {
+				buf = make([]int, 1+len(ops)%2, 2)
+			}
 			lab := make([]int, n) // naive oracle: lab[i] = least member of the class of i
 			for i := range lab {
 				lab[i] = i
